@@ -254,7 +254,8 @@ Inductive op :=
 | OUpdateColumnsStruct | OUpdateColumnsMap
 | OCreateMaps                   (* Model(&T{}).Create(&[]map[string]interface{}{...}): ConvertSliceOfMapToValuesForCreate *)
 | OFocAssign                    (* [Model(&T{}).]Where(rows).Assign(map).FirstOrCreate(&dest), a row is found *)
-| OFoiAssign.                   (* the same chain with FirstOrInit *)
+| OFoiAssign                    (* the same chain with FirstOrInit *)
+| OSaveSlice.                   (* Save(&[]T{...}): Create + OnConflict{UpdateAll} + gorm:update_track_time *)
 
 Definition key_name (s : schema) : string :=
   match find f_pk (col_fields s) with Some f => f_db f | None => "id" end.
@@ -365,6 +366,8 @@ Definition run_op (s : schema) (table : string) (o : op) (selects omits : list s
       let sm := select_and_omit s table selects omits true false in
       let fs := create_fields s sm ps in
       if default_placeholder_error fs ps then mk_outcome [] true
+      else if existsb f_pk fs && existsb (fun p : payload => mem_z (fst p) ids) ps
+      then mk_outcome [] true                     (* UNIQUE constraint: the whole (batched) create is rolled back *)
       else mk_outcome (new_rows s [] (sort_fields s fs) ps 1001) false
       end
   | OCreateMap =>
@@ -389,6 +392,25 @@ Definition run_op (s : schema) (table : string) (o : op) (selects omits : list s
          the caller put on the chain *)
       do_update s (firstn 1 rows) (assign_map s (select_and_omit s table selects omits false true) false p)
   | OFoiAssign => mk_outcome [] false          (* FirstOrInit never writes *)
+  | OSaveSlice =>
+      (* one INSERT ... ON CONFLICT (key) DO UPDATE SET <UpdateAll>; tracked update times are NowFunc() in
+         every element (update_track_time).  Cells of stored rows first (in key order), then the new rows *)
+      match ps with [] => mk_outcome [] true | _ =>
+      let sm := select_and_omit s table selects omits true false in
+      let fs := create_fields s sm ps in
+      let forced := map f_db (filter (fun f => match f_auto f with AUpdate => true | _ => false end) (col_fields s)) in
+      match fs with [] => mk_outcome [] true | _ =>
+      if default_placeholder_error fs ps then mk_outcome [] true else
+      let key_in := existsb f_pk fs in
+      let collides := fun p : payload => key_in && mem_z (fst p) ids in
+      let set_of := fun p => canon s (update_all_set s (select_and_omit s table selects omits true true) fs forced p) in
+      mk_outcome
+        (flat_map (fun id => match find (fun p : payload => (fst p =? id) && collides p) ps with
+                             | Some p => cells_for [id] (set_of p)
+                             | None => []
+                             end) ids
+         ++ new_rows s forced (sort_fields s fs) (filter (fun p => negb (collides p)) ps) 1001) false
+      end end
   | OUpsertAll | OUpsertNothing | OUpsertCols _ => upsert s table selects omits ids [] o p
   | OSave =>
       if fst p =? 0 then
